@@ -64,6 +64,12 @@ def check_proofs(prop):
     src = os.path.join(COQ, "theories", "Properties", f"{prop}.v")
     res = dict(obligations=0, discharged=0, theorems=[], ok=False, failing=None, checker_cmd="", log="",
                tables="")
+    lint = subprocess.run(["python3", os.path.join(VERIF, "tools", "lint_coq.py")], capture_output=True, text=True)
+    if lint.returncode != 0:
+        res["failing"] = "forbidden construct in the development: " + lint.stdout[-800:]
+        text = open(src).read() if os.path.exists(src) else ""
+        res["obligations"] = len([m for m in THEOREM_RE.finditer(text) if m.group(1) == "Theorem"])
+        return res
     with CoqLock():
         ok, msg = regen_tables()
         res["tables"] = msg
